@@ -613,8 +613,8 @@ int main(int argc, char **argv)
 
     if (strcmp(argv[1], "run") == 0) {
         const world_t *w; uint64_t base; long long from, to, i; int mode, k, trace = 0;
-        const char *plans_path = NULL, *states_path = NULL;
-        FILE *pf = NULL;
+        const char *plans_path = NULL, *states_path = NULL, *inter_path = NULL;
+        FILE *pf = NULL, *inf = NULL;
         if (argc < 7) usage();
         w = find_world(argv[2]); if (!w) usage();
         mode = atoi(argv[3]); base = strtoull(argv[4], NULL, 10);
@@ -622,11 +622,13 @@ int main(int argc, char **argv)
         for (k = 7; k < argc; k++) {
             if (strcmp(argv[k], "--plans") == 0 && k + 1 < argc) plans_path = argv[++k];
             else if (strcmp(argv[k], "--states") == 0 && k + 1 < argc) states_path = argv[++k];
+            else if (strcmp(argv[k], "--interleavings") == 0 && k + 1 < argc) inter_path = argv[++k];
             else if (strcmp(argv[k], "--trace") == 0) trace = 1;
             else if (strcmp(argv[k], "--state-sample") == 0 && k + 1 < argc) sset_sample = strtoull(argv[++k], NULL, 10);
         }
         install_handlers();
         if (plans_path) pf = fopen(plans_path, "ab");
+        if (inter_path) inf = fopen(inter_path, "ab");
         for (i = from; i < to; i++) {
             prng_t r; uint64_t ph;
             prng_seed(&r, mix_seed(base, (uint64_t)mode * 131 + (uint64_t)w->name[0] + ((uint64_t)w->name[1] << 8), (uint64_t)i));
@@ -641,6 +643,7 @@ int main(int argc, char **argv)
             run_plan(w, &g_plan, i, trace);
             print_result("R", i, ph);
             if (pf && g_run.nontrivial) fwrite(&ph, 8, 1, pf);
+            if (inf && g_run.statehash) fwrite(&g_run.statehash, 8, 1, inf);   /* world-defined (scenario, schedule) hash */
             if (g_run.violated && strstr(g_run.key, "/heap/") != NULL && i + 1 < to) {
                 /* the library wrote where it must not: this process's memory is no longer trustworthy */
                 printf("RESTART %lld\n", i + 1);
@@ -648,6 +651,7 @@ int main(int argc, char **argv)
             }
         }
         if (pf) fclose(pf);
+        if (inf) fclose(inf);
         if (states_path) sset_dump(states_path);
         print_totals();
         return 0;
